@@ -205,6 +205,24 @@ def run(ctx):
             r6.check(ok and not parses, f"node[{desc}]", "one text node of the package's text-writer class whose data is the argument itself", "pyxform/utils.py",
                      why_fail=f"children={kids!r}")
     rules.append(r6)
+
+    # ------------------------------------------------------------------ R8
+    # the two modes may run at the same time on two threads (one survey each): everything the serialisers write goes to
+    # the writer they are handed or to their own locals - a buffer shared at module level interleaves the two documents
+    r8 = Rule("C15", "C15.R8", "the serialiser classes keep no shared buffer (module-level state) between or across calls", floor=1,
+              necessary="two serialisations sharing one buffer truncate and interleave each other")
+    from .c14 import module_state_obligations
+    writer_classes = {elem_cls.name, text_cls.name}
+
+    def _in_serialiser(fi):
+        owner = fi
+        while owner.cls is None and owner.parent is not None:
+            owner = owner.parent
+        return (owner.cls is not None and owner.cls.name in writer_classes) or fi.name in ("_to_pretty_xml", "_to_ugly_xml", "node", "print_xform_to_file")
+    module_state_obligations(ctx, r8, only_writers=_in_serialiser)
+    for o in r8.obligations:
+        o["rule"] = "C15.R8"
+    rules.append(r8)
     return rules
 
 
